@@ -58,7 +58,11 @@ def _toreal(e):
 def mk_sum(n, body_fn):
     """Sum_{i<n} body_fn(i) with linearity normalisation."""
     Assumed.note("Sum(n, f): finite sum; linear in f (normalised at construction); equal bodies give equal sums")
-    n = _dterm(_dim(n))
+    nd = _dim(n)
+    if isinstance(nd, int) and 0 <= nd <= 8:  # concrete short sums are written out
+        terms = [z3.simplify(_toreal(body_fn(z3.IntVal(k)))) for k in range(nd)]
+        return z3.Sum(terms) if len(terms) > 1 else (terms[0] if terms else z3.RealVal(0))
+    n = _dterm(nd)
     i = z3.Int("sum!i")
     body = z3.simplify(_toreal(body_fn(i)))
     return _sum_norm(n, i, body)
